@@ -30,8 +30,17 @@ fn acf_suite(run: &Run, xi: &[i128], shift: f64) {
 }
 
 fn acf_lags(run: &Run, xi: &[i128], shift: f64, maxlag: i32) {
+    let mut buf: Vec<f64> = Vec::new();
+    acf_lags_in(run, xi, shift, maxlag, &mut buf)
+}
+
+/// the series is written into `buf` in place (same allocation when the length allows): the functions
+/// are pure, a buffer they have seen before with other contents must not matter
+fn acf_lags_in(run: &Run, xi: &[i128], shift: f64, maxlag: i32, buf: &mut Vec<f64>) {
     let n = xi.len();
-    let x: Vec<f64> = xi.iter().map(|&v| v as f64 + shift).collect();
+    buf.clear();
+    buf.extend(xi.iter().map(|&v| v as f64 + shift));
+    let x: &Vec<f64> = buf;
     let c0 = acov_exact(xi, 0);
     let var = c0.to_f64();
     let range = (xi.iter().max().unwrap() - xi.iter().min().unwrap()) as f64;
@@ -104,6 +113,17 @@ fn forecast_ref(coeffs: &[f64], intercept: f64, data: &[f64], h: usize) -> Vec<(
     out
 }
 
+thread_local! {
+    /// a series the same AR object is fitted to before the fit that is judged (None: fresh object)
+    static AR_PRIOR: std::cell::RefCell<Option<Vec<f64>>> = std::cell::RefCell::new(None);
+}
+fn with_ar_prior<T>(prior: Vec<f64>, f: impl FnOnce() -> T) -> T {
+    AR_PRIOR.with(|c| *c.borrow_mut() = Some(prior));
+    let r = f();
+    AR_PRIOR.with(|c| *c.borrow_mut() = None);
+    r
+}
+
 fn ar_suite(run: &Run, x: &[f64], p: usize, horizons: usize, tag: &str) {
     let n = x.len();
     // exact autocorrelations (data are integers plus an integer offset)
@@ -135,6 +155,14 @@ fn ar_suite(run: &Run, x: &[f64], p: usize, horizons: usize, tag: &str) {
     run.ok();
     let desc = || format!("{} AR({}) on x(len {})={:?}", tag, p, n, &x[..n.min(12)]);
     let mut ar = AR::new(p);
+    let prior = AR_PRIOR.with(|c| c.borrow().clone());
+    if let Some(px) = &prior {
+        // a re-used model object: the second fit must be as good as a first one
+        let _ = guard(|| {
+            ar.fit(px);
+        });
+        run.regime("AR-refit");
+    }
     if let Err(e) = guard(|| {
         ar.fit(x);
     }) {
@@ -258,7 +286,7 @@ fn synth(len: usize, a: &[f64], seed: u64) -> Vec<f64> {
 }
 
 pub fn run(run: &Run) {
-    run.rule("acovf/acf: every integer series of length 3..=7 over {-1,0,1,2} × every lag -(n+1)..=(n+1) × offsets {0,1e3,1e6} against exact rational autocovariances; difference∘cumsum on all of them; AR orders 1..=3 on every series of length 8..=10 over {-1,0,1} with Toeplitz cond ≤ 1e6 and orders 1..=9 (12) on deterministic AR-driven series of length 50..5000 with offsets; forecasts for every horizon 1..=50 (1000 on the long series); non-trivial = non-constant series");
+    run.rule("acovf/acf: every integer series of length 3..=7 over {-1,0,1,2} × every lag -(n+1)..=(n+1) × offsets {0,1e3,1e6} against exact rational autocovariances; difference∘cumsum on all of them; acovf / acf also on a buffer edited in place between evaluations, AR fits also on a re-used model object; AR orders 1..=3 on every series of length 8..=10 over {-1,0,1} with Toeplitz cond ≤ 1e6 and orders 1..=9 (12) on deterministic AR-driven series of length 50..5000 with offsets; forecasts for every horizon 1..=50 (1000 on the long series); non-trivial = non-constant series");
     let letters = [-1i128, 0, 1, 2];
     for n in 3..=7usize {
         par_words(4, n, |w| {
@@ -291,6 +319,28 @@ pub fn run(run: &Run) {
             let xi: Vec<i128> = synth(len, &[0.6, -0.3], seed + 3).iter().map(|v| *v as i128).collect();
             for shift in [0.0, 1e3, 1e6] {
                 acf_lags(run, &xi, shift, 50);
+            }
+        }
+    }
+    // the same buffer, edited in place between evaluations: same address, length, first and last
+    // element, different interior (and different ends, and a different length)
+    for &len in &[12usize, 60, 300] {
+        for seed in 0..2u64 {
+            let a: Vec<i128> = synth(len, &[0.6, -0.3], seed + 11).iter().map(|v| *v as i128).collect();
+            let mut b = a.clone();
+            for v in b[len / 3..2 * len / 3].iter_mut() {
+                *v += 5;
+            }
+            let mut c = b.clone();
+            c[0] -= 3;
+            c[len - 1] += 2;
+            let d: Vec<i128> = c[..len - 2].to_vec();
+            let mut buf: Vec<f64> = Vec::with_capacity(len);
+            for shift in [0.0, 1e3] {
+                for series in [&a, &b, &c, &d, &a] {
+                    acf_lags_in(run, series, shift, 50.min(len as i32 + 1), &mut buf);
+                    run.regime("acf-on-reused-buffer");
+                }
             }
         }
     }
@@ -332,6 +382,11 @@ pub fn run(run: &Run) {
     jobs.par_iter().for_each(|(ci, a, len, seed, off, p)| {
         let x: Vec<f64> = synth(*len, a, *seed + 17 * *ci as u64).iter().map(|v| v + off).collect();
         ar_suite(run, &x, *p, 1000, "synthetic");
+        if *seed == 0 && (*p <= 2 || *p == 8) {
+            // the same AR object fitted before to another series (another length, another scale)
+            let other: Vec<f64> = synth(*len / 2 + 7, &[0.3, 0.4], 99).iter().map(|v| 3.0 * v + 11.0).collect();
+            with_ar_prior(other, || ar_suite(run, &x, *p, 50, "synthetic, re-used AR object"));
+        }
         if *p <= 3 && *off == 0.0 {
             shift_equivariance(run, &x, *p, 1e6);
             shift_equivariance(run, &x, *p, 1e3);
